@@ -78,6 +78,7 @@ type c16 struct {
 	eGr     map[uint64]int    // endorsement gauge -> rollapp index
 	unb     map[[2]int][]c16Unb
 	slashed bool
+	curDel  int // delegator of the staking message being executed (-1 otherwise)
 
 	// monitor state
 	gDisc   map[uint64]string // gauge -> (distribution − Σ votes) as string
@@ -85,6 +86,7 @@ type c16 struct {
 	pDisc   map[int]string      // actor -> (vote.vp − staking power)
 	lowKept map[int]bool        // actor keeps a vote while staking power < min
 	invBrk  map[string]bool     // registered invariant currently broken
+	recBad  bool
 	weekNo  int64
 	claimed map[uint64]math.Int // per endorsement gauge: claimed in the current distribution epoch
 	allot   map[uint64]math.Int // per endorsement gauge: allotment of the current distribution epoch
@@ -585,6 +587,10 @@ func (h *c16) exec(line string) (string, string) {
 		return line, "ok"
 	}
 	h.lines = append(h.lines, line)
+	h.curDel = -1
+	if oc := c16OpClass(kind); oc == "staking-hook" {
+		h.curDel = c16Idx(arg(1))
+	}
 	full, cls, extra := line, "", ""
 	switch kind {
 	case "vote":
@@ -672,7 +678,10 @@ func (h *c16) exec(line string) (string, string) {
 			return err
 		})
 		if err != nil {
-			f.T.Fatalf("slash: %v", err)
+			// e.g. the validator is no longer bonded (x/staking panics): nothing happened
+			cls = "stk-fail"
+			full += " :: F"
+			break
 		}
 		post := h.table(f.Ctx)
 		var fs []string
@@ -737,7 +746,7 @@ func (h *c16) exec(line string) (string, string) {
 }
 
 func (h *c16) resetTrace() {
-	h.kinds, h.changed, h.slashed = nil, false, false
+	h.kinds, h.changed, h.slashed, h.recBad, h.curDel = nil, false, false, false, -1
 	h.assetG, h.nonPerp, h.eG, h.eGr = nil, 0, nil, map[uint64]int{}
 	h.unb = map[[2]int][]c16Unb{}
 	h.gDisc, h.vpDisc, h.pDisc, h.lowKept, h.invBrk = map[uint64]string{}, "0", map[int]string{}, map[int]bool{}, map[string]bool{}
@@ -794,6 +803,8 @@ func (h *c16) monitorState(kind, cls string) {
 			h.r.Violate("C16/distribution_eq_sum_of_votes/negative-gauge-power/"+oc, fmt.Sprintf("gauge %d has power %s in the distribution", g.GaugeId, g.Power), h.lines...)
 		}
 	}
+	preDisc := len(h.gDisc) > 0 || h.vpDisc != "0"
+	newDisc := false
 	nd := map[uint64]string{}
 	for id := range ids {
 		a, b := got[id], sum[id]
@@ -809,6 +820,7 @@ func (h *c16) monitorState(kind, cls string) {
 	}
 	for id, x := range nd {
 		if h.gDisc[id] != x {
+			newDisc = true
 			h.r.Violate("C16/distribution_eq_sum_of_votes/gauge-power/"+oc,
 				fmt.Sprintf("after `%s`: distribution power of gauge %d minus the sum over votes = %s", kind, id, x), h.lines...)
 		}
@@ -816,6 +828,7 @@ func (h *c16) monitorState(kind, cls string) {
 	h.gDisc = nd
 	if x := d.VotingPower.Sub(sumVP).String(); x != h.vpDisc {
 		if x != "0" {
+			newDisc = true
 			h.r.Violate("C16/distribution_eq_sum_of_votes/total-voting-power/"+oc,
 				fmt.Sprintf("after `%s`: distribution voting power minus the sum over votes = %s", kind, x), h.lines...)
 		}
@@ -840,19 +853,65 @@ func (h *c16) monitorState(kind, cls string) {
 		if x := v.VotingPower.Sub(st); !x.IsZero() || bad != "" || !rec.Equal(v.VotingPower) {
 			np[a] = x.String() + bad + "/" + rec.String()
 			if h.pDisc[a] != np[a] {
-				h.r.Violate("C16/power_tracks_staking/voter-power/"+oc,
+				q := oc
+				if oc == "staking-hook" {
+					if a == h.curDel {
+						q = "staking-hook-own-delegation"
+					} else {
+						q = "staking-hook-other-delegator"
+					}
+					if h.slashed {
+						q += "-after-slash"
+					}
+				}
+				h.r.Violate("C16/power_tracks_staking/voter-power/"+q,
 					fmt.Sprintf("after `%s`: a%d vote power %s, bonded delegations %s, per-validator records sum %s%s", kind, a, v.VotingPower, st, rec, bad), h.lines...)
 			}
 		}
 		if st.LT(h.minVP) {
 			nl[a] = true
 			if !h.lowKept[a] {
-				h.r.Violate("C16/below_min_prunes_vote/vote-kept/"+oc,
+				q := oc
+				if oc != "slash" && h.slashed {
+					q += "-after-slash"
+				}
+				h.r.Violate("C16/below_min_prunes_vote/vote-kept/"+q,
 					fmt.Sprintf("after `%s`: a%d has bonded power %s < minimum %s and still has a vote (recorded power %s)", kind, a, st, h.minVP, v.VotingPower), h.lines...)
 			}
 		}
 	}
 	h.pDisc, h.lowKept = np, nl
+	// total of the per-validator records = total of the distribution (part of sponsorship/general)
+	recTotal := math.ZeroInt()
+	for a := range h.actors {
+		_ = f.App.SponsorshipKeeper.IterateDelegatorValidatorPower(f.Ctx, h.actors[a], func(_ sdk.ValAddress, p math.Int) (bool, error) {
+			recTotal = recTotal.Add(p)
+			return false, nil
+		})
+	}
+	recOK := recTotal.Equal(d.VotingPower)
+	if !recOK && !h.recBad {
+		h.r.Violate("C16/distribution_eq_sum_of_votes/total-vs-validator-records/"+oc,
+			fmt.Sprintf("after `%s`: Σ per-validator records %s, distribution voting power %s", kind, recTotal, d.VotingPower), h.lines...)
+	}
+	h.recBad = !recOK
+	// zero-power entries (stored distribution or a vote's ToDistribution): they do not change the
+	// distribution as a function gauge -> power, but the module's `distribution` invariant demands
+	// > 0 and `general` compares entry lists; breaks explained by them alone are counted, not reported
+	zeroEntry := false
+	for _, g := range d.Gauges {
+		if g.Power.IsZero() {
+			zeroEntry = true
+		}
+	}
+	for _, v := range votes {
+		for _, g := range v.ToDistribution().Gauges {
+			if g.Power.IsZero() {
+				zeroEntry = true
+			}
+		}
+	}
+	semanticOK := len(nd) == 0 && h.vpDisc == "0" && recOK
 	// the module's registered invariants (x/sponsorship/keeper/invariants.go) as extra oracles
 	for _, inv := range []struct {
 		name string
@@ -864,10 +923,22 @@ func (h *c16) monitorState(kind, cls string) {
 		{"general", sponskeeper.InvariantGeneral(f.App.SponsorshipKeeper)},
 	} {
 		err := inv.fn(f.Ctx)
-		if err != nil && !h.invBrk[inv.name] {
-			h.r.Violate("C16/invariant/"+inv.name+"/"+oc, fmt.Sprintf("after `%s`: registered invariant sponsorship/%s broken: %s", kind, inv.name, strings.ReplaceAll(err.Error(), "\n", "; ")), h.lines...)
+		broken := err != nil
+		if broken && zeroEntry && ((inv.name == "general" && semanticOK) ||
+			(inv.name == "distribution" && strings.Contains(err.Error(), "gauge power must be > 0, got 0"))) {
+			h.r.Hit("invariant-" + inv.name + "-broken-by-zero-power-entry-only")
+			broken = false
 		}
-		h.invBrk[inv.name] = err != nil
+		if broken && !h.invBrk[inv.name] {
+			q := oc
+			if preDisc && !newDisc {
+				// the distribution was already off before this op (monitor fired then); this op only
+				// makes the module's own invariant notice the residue
+				q = "residue-of-earlier-discrepancy"
+			}
+			h.r.Violate("C16/invariant/"+inv.name+"/"+q, fmt.Sprintf("after `%s`: registered invariant sponsorship/%s broken: %s", kind, inv.name, strings.ReplaceAll(err.Error(), "\n", "; ")), h.lines...)
+		}
+		h.invBrk[inv.name] = broken
 	}
 	if oc == "staking-hook" && cls == "ok" {
 		h.r.Hit("staking-hook-accepted")
@@ -952,9 +1023,12 @@ func TestC16(t *testing.T) {
 		return
 	}
 	c16Corpus(h, emit, endTrace)
+	// hlib's splitmix streams of nearby seeds are shifts of one another (state = (seed+k)·γ + c):
+	// re-seed through the output function so that VERIF_SEED=1,2,3 give unrelated trace sets
+	root := NewRng(r.Rng.U64() ^ 0xC16C16C16)
 	n := r.N(60, 700)
 	for i := 0; i < n; i++ {
-		c16GenTrace(h, r.Rng.Fork(), emit, 30+r.Rng.Intn(40))
+		c16GenTrace(h, root.Fork(), emit, 30+root.Intn(40))
 		endTrace()
 	}
 }
